@@ -3,9 +3,12 @@ package props
 import (
 	"fmt"
 	"testing"
+	"time"
 
 	vestingtypes "github.com/chain4energy/c4e-chain/x/cfevesting/types"
 	sdk "github.com/cosmos/cosmos-sdk/types"
+	banktypes "github.com/cosmos/cosmos-sdk/x/bank/types"
+	govv1 "github.com/cosmos/cosmos-sdk/x/gov/types/v1"
 	"pgregory.net/rapid"
 )
 
@@ -68,6 +71,9 @@ func TestC06(t *testing.T) {
 		if m.sentToRecorded > 0 {
 			cl = append(cl, "send_to_address_recorded_in_genesis")
 		}
+		if m.sendSwitchedOff > 0 && m.withdrawAfterLockEnd > 0 {
+			cl = append(cl, "bank_transfers_switched_off_in_history")
+		}
 		st.Case(nt, map[string]interface{}{"history": m.log}, cl...)
 	})
 }
@@ -103,7 +109,31 @@ func TestC05Restart(t *testing.T) {
 	st := StatsFor("C05")
 	rapid.Check(t, func(t *rapid.T) {
 		g := GenABCIGenesis(t)
+		denomProposalFirst := rapid.IntRange(0, 3).Draw(t, "denomProposalFirst") == 0
+		if denomProposalFirst {
+			g.Pools = nil // the vesting denomination can only be changed while no pools exist
+			g.SecondDenom = true
+		}
 		d := newABCIDriver(t, g)
+		if denomProposalFirst {
+			// the first block carries a governance proposal that changes the vesting denomination to the other
+			// one the accounts hold and, half of the time, a second message that fails at execution, so that the
+			// whole proposal is rolled back
+			other := "uatom"
+			if g.VestingDenom == "uatom" {
+				other = Denom
+			}
+			msgs := []sdk.Msg{&vestingtypes.MsgUpdateDenomParam{Authority: GovAuthority(), Denom: other}}
+			if rapid.Bool().Draw(t, "rolledBack") {
+				msgs = append(msgs, &banktypes.MsgSend{FromAddress: GovAuthority(), ToAddress: KeyAcc(1).Addr.String(), Amount: sdk.NewCoins(sdk.NewCoin(Denom, sdk.NewIntFromBigInt(pow10[30])))})
+			}
+			m, err := govv1.NewMsgSubmitProposal(msgs, sdk.NewCoins(sdk.NewInt64Coin(Denom, 10)), KeyAcc(1).Addr.String(), "")
+			if err != nil {
+				panic(err)
+			}
+			d.scripted = []plannedTx{{KeyAcc(1), []sdk.Msg{m}, "gov", "proposal:vestingdenom_first", nil}}
+			d.quietBlocks = 2 // nothing else happens until the proposal has been decided (a pool would make it fail)
+		}
 		nb := rapid.IntRange(4, 14).Draw(t, "nBlocks")
 		restarts := 0
 		check := func(when string) {
@@ -127,6 +157,12 @@ func TestC05Restart(t *testing.T) {
 			}
 		}
 		for i := 0; i < nb; i++ {
+			if denomProposalFirst && i > 1 && len(g.VTypes) > 0 && rapid.Bool().Draw(t, fmt.Sprintf("pool%d", i)) {
+				// ordinary pool creations follow (before, while and after the proposal is decided)
+				o := KeyAcc(1 + i%2)
+				d.scripted = []plannedTx{{o, []sdk.Msg{&vestingtypes.MsgCreateVestingPool{Owner: o.Addr.String(), Name: fmt.Sprintf("s%d", i),
+					Amount: sdk.NewInt(int64(1000 * i)), Duration: time.Hour, VestingType: g.VTypes[0].Name}}, "cfevesting", "createPool", nil}}
+			}
 			d.genBlock(fmt.Sprintf("b%d", i))
 			check(fmt.Sprintf("after block %d", i+1))
 			if i < nb-1 && rapid.IntRange(0, 3).Draw(t, fmt.Sprintf("restart%d", i)) == 0 {
@@ -139,6 +175,9 @@ func TestC05Restart(t *testing.T) {
 		var cl []string
 		if restarts > 0 {
 			cl = append(cl, "node_restarted")
+		}
+		if denomProposalFirst {
+			cl = append(cl, "denomination_proposal_before_any_pool")
 		}
 		if d.accepted["cfevesting"] > 0 {
 			cl = append(cl, "vesting_tx_accepted")
